@@ -86,7 +86,10 @@ def plant_probes(woven, level):
             pending = None
             if kind == 'fn':
                 loop_depth_stack = []
-                if level == 0:
+                # a function whose contract says `requires false` is declared unreachable on purpose (e.g. LocalServer::add_snapshot,
+                # whose body is `unreachable!()`): nothing to probe
+                declared_unreachable = any(re.search(r'\brequires\s+false\b', lines[q]) for q in range(max(0, i - 12), i) if kinds[q] != 'code')
+                if level == 0 and not declared_unreachable:
                     probes.append((len(out) + 1, 'entry of fn ' + desc))
                     out.append('        proof { assert(false); } // vf-probe')
             else:
